@@ -121,6 +121,59 @@ def _simp(e):
     return z3.simplify(e)
 
 
+def _resolved_quotient(a, m):
+    """If the path condition forces  a div m  (m a positive numeral) to one value, return that numeral: keeps time arithmetic
+    such as  t - t % H  linear instead of stacking mod terms.  Sound: the replacement is implied by the path condition."""
+    c = Ctx.cur
+    if c is None or not c.resolve_quotients or z3.is_int_value(_simp(a)):
+        return None
+    try:
+        if c.solver.check() != z3.sat:
+            return None
+        v = c.solver.model().eval(a / m, model_completion=True)
+        if not z3.is_int_value(v):
+            return None
+        STATS.feas_queries += 2
+        if c.solver.check(a / m != v) == z3.unsat:
+            return v
+    except z3.Z3Exception:
+        return None
+    return None
+
+
+def as_int_term(t):
+    """Int-sorted term equal to the Real-sorted term t if t is structurally integer valued (to_real(i), integer numerals,
+    sums / differences / products of such), else None"""
+    if z3.is_int(t):
+        return t
+    if z3.is_rational_value(t):
+        fr = t.as_fraction()
+        return z3.IntVal(int(fr)) if fr.denominator == 1 else None
+    if not z3.is_app(t):
+        return None
+    k = t.decl().kind()
+    if k == z3.Z3_OP_TO_REAL:
+        return t.arg(0)
+    if k in (z3.Z3_OP_ADD, z3.Z3_OP_SUB, z3.Z3_OP_MUL, z3.Z3_OP_UMINUS):
+        parts = [as_int_term(c) for c in t.children()]
+        if any(p is None for p in parts):
+            return None
+        if k == z3.Z3_OP_ADD:
+            return z3.Sum(parts) if len(parts) > 1 else parts[0]
+        if k == z3.Z3_OP_SUB:
+            out = parts[0]
+            for p in parts[1:]:
+                out = out - p
+            return out
+        if k == z3.Z3_OP_UMINUS:
+            return -parts[0]
+        out = parts[0]
+        for p in parts[1:]:
+            out = out * p
+        return out
+    return None
+
+
 # ------------------------------------------------------------------------------------------------
 # exploration context
 # ------------------------------------------------------------------------------------------------
@@ -147,6 +200,7 @@ class Ctx:
         self.concretize_divisors = False  # symbolic Int divisors of // and % are forked over their values
         self._model = None   # a model of side + pc, when one is known
         self.assume_fractional_floors = False   # floor(x) of a symbolic real assumes x is not an exact integer
+        self.resolve_quotients = False          # x // m, x % m with numeral m: use the quotient's value when the path condition forces it
         self._qmodel = None
 
     # -- symbolic inputs (same name => same constant on every re-execution)
@@ -485,12 +539,17 @@ class Sym:
     @staticmethod
     def _floordiv(a, b):
         a, b, ints = _coerce(a, b)
+        if not ints:
+            ia, ib = as_int_term(a), as_int_term(b)
+            if ia is not None and ib is not None:   # integer-valued reals (float(sim_time) % H): integer arithmetic, then back to Real
+                return z3.ToReal(Sym._floordiv(ia, ib))
         if ints:
             bs = _simp(b)
             if not z3.is_int_value(bs) and Ctx.cur is not None and Ctx.cur.concretize_divisors:
                 bs = b = z3.IntVal(Ctx.cur.concretize(bs))  # fork over the divisor's feasible values: keeps the arithmetic linear
             if z3.is_int_value(bs) and bs.as_long() > 0:
-                return a / b
+                q = _resolved_quotient(a, bs)
+                return q if q is not None else a / b
             return z3.If(b > 0, a / b, (-a) / (-b))
         return z3.ToReal(z3.ToInt(a / b))
 
@@ -507,12 +566,17 @@ class Sym:
     @staticmethod
     def _mod(a, b):
         ta, tb, ints = _coerce(a, b)
+        if not ints:
+            ia, ib = as_int_term(ta), as_int_term(tb)
+            if ia is not None and ib is not None:
+                return z3.ToReal(Sym._mod(ia, ib))
         if ints:
             bs = _simp(tb)
             if not z3.is_int_value(bs) and Ctx.cur is not None and Ctx.cur.concretize_divisors:
                 bs = tb = z3.IntVal(Ctx.cur.concretize(bs))
             if z3.is_int_value(bs) and bs.as_long() > 0:
-                return ta % tb
+                q = _resolved_quotient(ta, bs)
+                return ta - bs * q if q is not None else ta % tb
         return ta - tb * Sym._floordiv(ta, tb)
 
     def __mod__(self, o):
@@ -629,8 +693,15 @@ class Sym:
             return self
         c = Ctx.cur
         if c is not None and c.assume_fractional_floors:
-            # exact-integer arguments are where float rounding, not the real-arithmetic model, decides the result: exclude them
-            c.assume(self.e != z3.ToReal(z3.ToInt(self.e)))
+            # floor as a fresh integer k with k < x < k + 1 (mixed linear arithmetic, much cheaper for z3 than nested to_int terms).
+            # exact-integer arguments are where float rounding, not the real-arithmetic model, decides the result: excluded
+            es = _simp(self.e)
+            if z3.is_rational_value(es):
+                return Sym(_simp(z3.ToInt(es)))
+            k = c.fresh('floor', 'int')
+            kr = z3.ToReal(k)
+            c.assume(z3.And(kr < self.e, self.e < kr + 1))
+            return Sym(k)
         return Sym(_simp(z3.ToInt(self.e)))
 
     def __ceil__(self):
